@@ -20,7 +20,7 @@ ASSUMPTIONS = ["solver round-off: variants compared at 1e-7 relative to the data
                "points in general position (no tied neighbour distances for KNeighbors; hull-interior queries for Linear/Cubic)"]
 TRUSTED = ["numpy ravel/atleast_1d/broadcast semantics", "pandas Series -> ndarray conversion"]
 
-LINEAR = {"trend", "spline", "vector", "knn-mean", "linear", "chain-trend-knn", "vector-trend", "spline-dense-forces", "vector-dense-forces"}
+LINEAR = {"trend", "spline", "vector", "knn-mean", "linear", "chain-trend-knn", "vector-trend", "spline-dense-forces", "vector-dense-forces", "chain-blockcentres-trend"}
 VEC = {"vector", "vector-trend", "vector-dense-forces"}
 
 
@@ -75,6 +75,10 @@ def build(kind, params):
         return vd.Chain([("knn", vd.KNeighbors(k=params["k"], reduction=np.max)), ("trend", vd.Trend(1))])
     if kind == "vector-trend":
         return vd.Vector([vd.Trend(1), vd.Trend(params["degree"])])
+    if kind == "chain-blockcentres-trend":
+        # decimation to block means placed at the block CENTRES, then a trend: which mean goes with which centre does not depend on the order
+        # in which the points (hence the blocks) are met
+        return vd.Chain([("reduce", vd.BlockReduce(np.mean, spacing=params["spacing"], center_coordinates=True)), ("trend", vd.Trend(1))])
     raise ValueError(kind)
 
 
@@ -116,7 +120,8 @@ def _degenerate(es, ns):
 
 def rand_case(rng, kind=None, amp=None):
     kind = kind or rng.choice(["trend", "trend", "spline", "spline", "vector", "knn-mean", "knn-median", "linear", "cubic",
-                               "knn-max", "chain-trend-knn", "chain-knnmax-trend", "vector-trend", "spline-dense-forces", "vector-dense-forces"])
+                               "knn-max", "chain-trend-knn", "chain-knnmax-trend", "vector-trend", "spline-dense-forces", "vector-dense-forces",
+                               "chain-blockcentres-trend"])
     n = rng.choice([6, 8, 9, 10, 12])
     es, ns = pts(rng, n)
     while ((kind.startswith("knn") or "knn" in kind) and _has_ties(es, ns, at_data=kind.startswith("chain"))) or (kind in ("linear", "cubic") and _degenerate(es, ns)):
@@ -131,6 +136,7 @@ def rand_case(rng, kind=None, amp=None):
               "knn-mean": {"k": rng.randint(1, 3)}, "knn-median": {"k": rng.randint(1, 3)}, "knn-max": {"k": rng.randint(1, 3)},
               "chain-trend-knn": {"k": rng.randint(1, 3)}, "chain-knnmax-trend": {"k": rng.randint(1, 3)},
               "vector-trend": {"degree": rng.randint(0, 2)},
+              "chain-blockcentres-trend": {"spacing": rng.choice([6.5, 9.25, 13.0])},
               "spline-dense-forces": {"damping": rng.choice([1e-3, 1e-2]), "nf": rng.randint(5, 8)},
               "vector-dense-forces": {"damping": rng.choice([1e-3, 1e-2]), "nf": rng.randint(4, 6)},
               "linear": {"rescale": rng.random() < 0.5}, "cubic": {"rescale": rng.random() < 0.5}}[kind]
@@ -138,16 +144,23 @@ def rand_case(rng, kind=None, amp=None):
         w = None
     perm = list(range(n))
     rng.shuffle(perm)
-    return mk(kind, params, es, ns, d1, d2, w, perm, rng.randint(-3, 3) + 0.5, rng.randint(-3, 3) - 0.25, rng.randint(0, 10**6))
+    sf = rng.choice([1.0, 1.0, 1.0, 1e-12, 1e9])      # "for all scalars a, b": also a change of units by many orders of magnitude (volts to picovolts)
+    return mk(kind, params, es, ns, d1, d2, w, perm, (rng.randint(-3, 3) + 0.5) * sf, (rng.randint(-3, 3) - 0.25) * sf, rng.randint(0, 10**6))
 
 
 def corpus():
     import random
     rng = random.Random(4)
     cs = [rand_case(rng, k, 1.0) for k in ["trend", "spline", "vector", "knn-mean", "knn-median", "linear", "cubic",
-                                           "knn-max", "chain-trend-knn", "chain-knnmax-trend", "vector-trend", "spline-dense-forces", "vector-dense-forces"]]
+                                           "knn-max", "chain-trend-knn", "chain-knnmax-trend", "vector-trend", "spline-dense-forces", "vector-dense-forces",
+                                           "chain-blockcentres-trend", "chain-blockcentres-trend"]]
     # families exercised on EVERY run: every kind also with data of large and of tiny amplitude
     cs += [rand_case(rng, k, a) for a in (12500.0, 0.001) for k in ("cubic", "linear", "spline", "trend", "knn-median", "vector")]
+    # ... and with scalars a, b of order 1e-12 (every value of a d1 + b d2 far below 1e-8)
+    for k in ("spline", "trend", "vector", "knn-mean", "linear"):
+        c = rand_case(rng, k, 1.0)
+        c["args"][8], c["args"][9] = 2.5e-12, -1.25e-12
+        cs.append(mk(*c["args"][:10], c["args"][12]))
     return cs
 
 
@@ -298,7 +311,8 @@ def impl(case):
                 p1 = _fit_predict(kind, params, (E, N), D1, weights, (qE, qN))
                 p2 = _fit_predict(kind, params, (E, N), D2, weights, (qE, qN))
                 pc = _fit_predict(kind, params, (E, N), comb, weights, (qE, qN))
-                res["linearity"] = [[x.ravel().tolist() for x in pc], [(a * x + b * y).ravel().tolist() for x, y in zip(p1, p2)]]
+                res["linearity"] = [[x.ravel().tolist() for x in pc], [(a * x + b * y).ravel().tolist() for x, y in zip(p1, p2)],
+                                    float(max([abs(a) * float(np.nanmax(np.abs(x))) for x in p1] + [abs(b) * float(np.nanmax(np.abs(y))) for y in p2]))]
             return res
     r = C.call(run)
     return r if C.is_err(r) else ["meta", r]
@@ -367,7 +381,8 @@ def oracle(case, io):
         return "integer-typed query coordinates change the prediction"
     if "linearity" in res:
         pc, pl = np.array(res["linearity"][0]), np.array(res["linearity"][1])
-        s2 = max(1.0, float(np.nanmax(np.abs(pl)))) if np.any(np.isfinite(pl)) else 1.0
+        # (linear maps are homogeneous: the yardstick is the size of the two terms, whatever the units)
+        s2 = res["linearity"][2] if len(res["linearity"]) > 2 and np.isfinite(res["linearity"][2]) and res["linearity"][2] > 0 else 1.0
         if not np.allclose(pc, pl, rtol=0, atol=10 * tol * s2, equal_nan=True):
             return f"fit(a d1 + b d2) differs from a fit(d1) + b fit(d2) by {np.nanmax(np.abs(pc - pl))}"
     return None
